@@ -79,6 +79,7 @@ CLAIM = dict(
          'member reaches 64 KiB; the sequential machine finishes every script. The models are run against the implementation on every check.',
     note='DEFLATE/inflate/CRC-32 are Section hypotheses (laws validated against compress/flate on every run). The reader side of the round trip is the specification reader of the model; '
          'bgzf.Reader itself is exercised (all rd, mixed Read/ReadByte) but proved in C02. Fault-free underlying writer (faults: C09). '
-         'Theorems: bgzf_roundtrip, writer_seq_terminates, writer_conc_refines_seq, closed_writer_is_quiescent, member_fits; progress of the concurrent pipeline is not proved (C09).',
+         'Theorems: bgzf_roundtrip, bgzf_roundtrip_reader (composition with the C02 model of bgzf.Reader: any mix of Read n / ReadByte returns the written data then io.EOF), '
+         'writer_seq_terminates, writer_conc_refines_seq, closed_writer_is_quiescent, writer_conc_no_deadlock, member_fits; termination under every fair schedule is not proved.',
     technique='Coq proof over hand model tied by regenerated constants/skeleton + vm_compute correspondence + independent framing parser',
     design='6/C01')
